@@ -84,3 +84,9 @@ def words (s : String) : List String :=
 def b01 (b : Bool) : String := if b then "1" else "0"
 
 end HT
+
+namespace HT
+def isPanic {α : Type} : Except Fault α → Bool
+  | .error .panic => true
+  | _ => false
+end HT
